@@ -14,6 +14,8 @@ import (
 	"math/rand"
 	"time"
 
+	"github.com/miekg/dns"
+
 	"verifharness/lib/wire"
 )
 
@@ -361,6 +363,12 @@ func genDamage(seed int64, idx int, dc *damageCtx, thorough bool) damageCase {
 			for ne := 1 + rng.Intn(12); ne > 0; ne-- {
 				kq := pickKey()
 				mk, msg := hostileMsg(rng, kq.Q.Name, kq.Q.Qtype)
+				if kind == "wrapped-hostile-valid" {
+					// only messages the loader can decode, so the whole file is admitted
+					for try := 0; try < 20 && new(dns.Msg).Unpack(msg) != nil; try++ {
+						mk, msg = hostileMsg(rng, kq.Q.Name, kq.Q.Qtype)
+					}
+				}
 				e := dumpEntry{Key: kq.Key, Msg: msg, CacheExp: hostileTime(rng, now), MsgExp: hostileTime(rng, now), Stored: hostileTime(rng, now)}
 				if kind == "wrapped-hostile-valid" {
 					// admitted and reachable by a query
